@@ -95,11 +95,12 @@ def work(item):
     if not names: res['status'] = 'no-arguments'
     try:
         with treelog.set(treelog.NullLog()):
-            f = with_timeout(20, lambda: sym_compile(e, cache_const_intermediates=True))
+            f = with_timeout(20, lambda: sym_compile(e, cache_const_intermediates=True, object_constants=True))
     except Exception as ex:
         res['status'] = 'compile_failed'; return res
     holder = {}
     def run():
+        f.raw.__globals__['first_run'] = True      # every explored path is a fresh history: the function starts in its first-run state
         seq = sequence(e, names, pattern, f, symbolic=True)
         refs = []
         for r, vals, untouched in seq:
@@ -110,7 +111,7 @@ def work(item):
         _, a = progs.symbolic_args(names, prefix=f'c{k}_'); assume += a
     _, a = progs.symbolic_args(names, prefix=''); assume += a
     try:
-        paths, complete = with_timeout(90, lambda: explore(run, assumptions=assume, max_paths=8, timeout_ms=10000))
+        paths, complete = with_timeout(90, lambda: explore(run, assumptions=assume, max_paths=32 if p in progs.VARLEN else 8, timeout_ms=10000))   # 3 calls x 3 lengths = 27 paths for argument-dependent lengths
     except Timeout:
         res['status'] = 'harness_timeout'; return res
     res['paths'] = len(paths)
@@ -150,14 +151,14 @@ EXTRA = [
 
 def items(tier, seed):
     rng = random.Random(seed)
-    P = list(EXTRA) + list(progs.CORPUS)
+    P = list(EXTRA) + list(progs.VARLEN) + list(progs.CORPUS)
     d1 = [p for p, e in progs.typed(progs.depth1())]; rng.shuffle(d1)
     P += d1[:700 if tier == 'quick' else len(d1)]
     d2 = list(progs.depth2(d1[:300] if tier == 'quick' else d1[:3000])); rng.shuffle(d2)
     P += d2[:700 if tier == 'quick' else 20000]
     out = []
     for i, p in enumerate(P):
-        pats = PATTERNS if (tier == 'thorough' or i < len(EXTRA) + len(progs.CORPUS)) else [rng.choice(PATTERNS)]
+        pats = PATTERNS if (tier == 'thorough' or i < len(EXTRA) + len(progs.VARLEN) + len(progs.CORPUS)) else [rng.choice(PATTERNS)]
         for pat in pats: out.append((i, p, pat))
     return out
 
@@ -166,6 +167,9 @@ def main(argv=None):
     if args.replay:
         import json
         d = json.load(open(args.replay))['replay']
+        if d.get('kind') == 'lru':
+            from checks import c03_lru
+            ok, detail = c03_lru.replay(d['views']); print('REPRODUCED' if ok else 'not reproduced', detail); return 1 if ok else 0
         if d['arguments'] is None:
             names = progs.used_args(progs.parse(d['program'])); d['arguments'] = [tv.tolist(progs.default_args(names, k)) for k in range(3)]
         ok, detail = replay(progs.parse(d['program']), d['pattern'], [{k: numpy.array(v) for k, v in a.items()} for a in d['arguments']])
@@ -205,6 +209,22 @@ def main(argv=None):
         for u in res['unconfirmed']: run.unconfirmed(res['key'], u)
         if res['status'] == 'unsupported': run.counters['unsupported:' + res.get('unsupported', '')] += 1
         if res['nontrivial']: run.sample(dict(history=res['key'], queries=res['q']))
+    # buffer-keyed memo tables (types.lru_cache, used by transform items that compiled code calls): a hit must imply equal array values
+    if not args.only or args.only == 'lru':
+        from checks import c03_lru
+        hits = 0
+        for o in c03_lru.obligations():
+            run.case(o['label'], o['hits'] > 0); run.paths += o['paths']; hits += o['hits']
+            run.queries['exact_unsat'] += o['unsat']; run.queries['unknown'] += o['unknown']; run.queries['sat'] += len(o['sat'])
+            if o['errors'] or not o['exhaustive']: run.unconfirmed(o['label'], f'paths not exhaustive or failed: {o["errors"][:2]}')
+            if o['hits']: run.sample(dict(obligation=o['label'], paths=o['paths'], cache_hits=o['hits'], proved=o['unsat']), limit=40)
+            for views in o['sat']:
+                ok, detail = c03_lru.replay(views)
+                if ok: run.violation('lru:' + o['label'], f'types.lru_cache serves a stale value: {detail}'[:600], dict(kind='lru', views=views, program=None, pattern=None, arguments=None)); break
+                else: run.unconfirmed(o['label'], f'solver model did not reproduce ({detail})')
+        if hits == 0: run.harness_error('lru_cache obligations: no path with a cache hit was explored (vacuous)')
+        run.stubs.append('nutils.types.numpy -> proxy whose ndarray is a symbolic array-view class (lru_cache obligations); memory contents are an uninterpreted function')
+        run.bounds['lru_cache_views'] = 'two views, 1 or 2 axes of length 1..3, strides multiples of 8 in [-32,32], pointer inside a 512-byte buffer, element types <f8/<i8'
     return run.finish(dict(programs=run.cases, disagreements_checked=run.queries['sat'] + len(run.violations)))
 
 if __name__ == '__main__':
